@@ -823,15 +823,26 @@ public:
         return runCase(o, plan);
     }
 
-    std::string rule(const sim::Options &) const override
+    std::string rule(const sim::Options &o) const override
     {
-        return "case = control planner (RRT, RRT with intermediate states, SST, EST, KPIECE1, PDST, SyclopRRT, SyclopEST; round-robin) x "
-               "system (kinematic car, unicycle on SE(2); double integrator on R^4; velocity-controlled point in R^2/R^3, optionally "
-               "steerable) x asymmetric / one-sided / pinned control bounds x propagation step size x min/max control duration x "
-               "directed-control-sampler sample count x obstacle layout (boxes, thin slabs, balls) x 1-2 starts x goal (position region "
-               "or sampleable goal state) x planner knobs x seed x history of 1-3 solves on the same instance, each cancelled at its "
+        std::string sys = "control planner (RRT, RRT with intermediate states, SST, EST, KPIECE1, PDST, SyclopRRT, SyclopEST; round-robin) x "
+                          "system (kinematic car, unicycle on SE(2); double integrator on R^4; velocity-controlled point in R^2/R^3, optionally "
+                          "steerable) x asymmetric / one-sided / pinned control bounds x propagation step size x min/max control duration x "
+                          "directed-control-sampler sample count x obstacle layout (boxes, thin slabs, balls) x 1-2 starts x goal (position region "
+                          "or sampleable goal state) x planner knobs x seed";
+        if (o.prop == "C03")
+            return "base case = " + sys + " x second query; within a base case the first solve() is cancelled at EVERY termination-condition "
+                   "evaluation index k = 0..23 (quick) / 0..87 (thorough) plus 8 geometrically spaced larger k, each in its own forked child, "
+                   "followed by the base case's history of 1-5 further ops (resumed solve cancelled at k', getPlannerData, clear, clearQuery / "
+                   "setProblemDefinition to the other query in three orders, each followed by a solve). non-trivial = the history ran to its end "
+                   "with every op judged; distinct = distinct (planner, system, goal type, op kinds, outcomes) signatures";
+        if (o.prop == "C20")
+            return "case = " + sys + " x one or two solves cancelled by an evaluation-count termination condition, executed in three separately "
+                   "started processes (exec) under address-layout / heap / environment / earlier-work perturbations; non-trivial = the planner "
+                   "really ran in all three; distinct = distinct (planner, system, outcome) signatures";
+        return "case = " + sys + " x history of 1-3 solves on the same instance, each cancelled at its "
                "k-th termination-condition evaluation (k from 0 to 20000), 30% with an extreme-draw burst (hook H1). non-trivial = at "
-               "least one reported path was replayed; distinct = distinct (planner, system, goal type) signatures x trace hashes";
+               "least one reported path was replayed; distinct = distinct (planner, system, goal type, obstacle count, durations, sample count) signatures";
     }
     std::vector<std::string> realComponents(const sim::Options &) const override
     {
@@ -845,11 +856,16 @@ public:
                 "state validity checker, goal region, projection, decomposition projection (harness)", "raw random draws while a burst is armed (hook H1)",
                 "termination condition (harness: evaluation counter)"};
     }
-    std::vector<std::string> assumptions(const sim::Options &) const override
+    std::vector<std::string> assumptions(const sim::Options &o) const override
     {
-        return {"replay tolerance 1e-6 x max(1, extent) on the state-space distance (PDST re-propagates split motions)",
-                "'valid' = inside the state-space bounds and accepted by the validity predicate, as SpaceInformation::isValid defines it",
-                "crashes / hangs / exceptions of a control planner are counted, not judged (the statement is about reported solutions)"};
+        std::vector<std::string> a = {"replay tolerance 1e-6 x max(1, extent) on the state-space distance (PDST re-propagates split motions)",
+                                      "'valid' = inside the state-space bounds and accepted by the validity predicate (the predicate handed to the "
+                                      "library includes the bounds, as its documentation asks of users of control planners)"};
+        if (o.prop == "C03")
+            a.push_back("states are accounted by the ledger mix-in at process exit, after all destructors; controls are not states and are not accounted");
+        else
+            a.push_back("crashes / hangs / exceptions of a control planner are counted, not judged here (C03 judges them)");
+        return a;
     }
 };
 
